@@ -105,6 +105,7 @@ fn gen_c16(ctx: &ops::Ctx, rng: &mut Rng, n: usize, thorough: bool) -> Vec<Strin
     // krill's own string helpers (the search side of the panic-site census): the fixed
     // boundary shapes, then a fixed budget of generated strings (cheap: microseconds each)
     v.extend(c16::strfn_fixed());
+    v.extend(c16::width_fixed());
     for _ in 0..(if thorough { 200_000 } else { 4_000 }) {
         v.push(c16::strfn_case(rng));
     }
